@@ -75,7 +75,9 @@ def run_case(case):
     # every third tree runs under context arguments attached at the root, with calls that attach their own at inner edges
     # (the effective context of a call is part of its argument hash, hence of what its caller records)
     ctx_mode = case["idx"] % 3 == 1
-    tree = trees.gen_tree(rng, tid, aimed_batch=case["idx"] % 2 == 0, with_context=ctx_mode)
+    # ... and every third tree contains calls that hand the child a list which the caller changes in place afterwards
+    mut_mode = case["idx"] % 3 == 2
+    tree = trees.gen_tree(rng, tid, aimed_batch=case["idx"] % 2 == 0, with_context=ctx_mode, with_mut=mut_mode)
     root_ctx = rng.choice([{"tenant": 1}, {"asof": "2020-01-02", "k": [1, 2]}, {"tenant": "x", "zone": None}]) if ctx_mode else None
     tfuncs.TREES[tid] = tree
     for nd in tree["nodes"]:
@@ -85,6 +87,7 @@ def run_case(case):
             out["sets"]["step_kinds"].add("fail:" + nd["fail"])
     entries = trees.simulate(tree, root_ctx=root_ctx)
     out["obs"]["trees_run_under_context_arguments"] += int(ctx_mode)
+    out["obs"]["trees_with_arguments_changed_in_place_after_the_call"] += int(mut_mode and any(s_[0] == "mutcall" for nd_ in tree["nodes"] for s_ in nd_["steps"]))
     keys = list(entries)
     root = entries[keys[0]]
     memoizable = [k for k in keys[1:] if entries[k].fail != "transient"]
@@ -137,7 +140,7 @@ def run_case(case):
                 if k not in S:
                     e = entries[k]
                     if e.fail != "transient":
-                        efn(e).forget(*call_args(e, tid))
+                        efn(e).forget(*call_args(e, tid), **(e.extra or {}))
             unreadable = False
             if si % 5 == 4 and S:
                 # the sub-calls left memoized keep their mementos but lose their result data (a store copied without
@@ -161,7 +164,7 @@ def run_case(case):
             ran = {(ev[1][0], ev[1][2], ev[1][4]) for ev in REC.since(mark)}
             recomputed = [k for k in keys if (entries[k].fn, entries[k].node, entries[k].fnarg.i if entries[k].fnarg else None)
                           in ran and entries[k].fail != "transient"]
-            if ctx_mode and not unreadable:
+            if (ctx_mode or mut_mode) and not unreadable:
                 # bodies never see context arguments, so the recorder cannot tell two entries apart that differ in nothing
                 # but their effective context: of those, the ones whose callers all were served from the store did not run
                 reached, stack = set(), [keys[0]]
@@ -197,7 +200,7 @@ def compare_all(out, fail, entries, which, tid, label, batch_mode):
         e = entries[k]
         if e.fail == "transient":
             continue
-        m = efn(e).memento(*call_args(e, tid))
+        m = efn(e).memento(*call_args(e, tid), **(e.extra or {}))
         if m is None:
             fail("a computed call has no memento", "%s node %d (%s)" % (label, e.node, trees.QN[e.fn]))
             continue
